@@ -366,6 +366,20 @@ impl Check for C03 {
         10
     }
 
+    fn extra(&self, tier: Tier, seed: u64) -> ExtraResult {
+        let mut out = ExtraResult::default();
+        if tier == Tier::Thorough {
+            let seeds: Vec<Vec<u8>> = (0..8u64).map(|k| crate::util::fill_bytes(seed ^ (k * 77), 600)).collect();
+            let fz = run_fuzz("hc_hostile", 1_500_000, seed, 4096, &seeds);
+            out.coverage.insert("fuzz_hc_hostile".into(), serde_json::json!({"engine": "libFuzzer via cargo-fuzz", "execs": fz.execs, "note": fz.note, "artifact": fz.artifact.as_ref().map(|p| p.display().to_string())}));
+            out.evaluations += fz.execs;
+            if let Some(a) = fz.artifact {
+                out.violation = Some((Violation::new("fuzz:hc_hostile", format!("libFuzzer target hc_hostile stopped on an input it saved as {}: {}", a.display(), fz.note)), serde_json::json!({"artifact": a.display().to_string()})));
+            }
+        }
+        out
+    }
+
     fn rule(&self) -> String {
         "layer A case = honest SimPair configuration + op sequence mixing honest ticks (sends in all modes, step/flush at arbitrary spacing incl. 0) with hostile input handed to the victim: CRC-valid data / ack / sync frames whose ids are drawn relative to the victim's live window state (base, base+W, +-1, +-W, 2^20, 2^31, 2^32-1, random), datagrams with arbitrary channel / parent leads / fragment ids / counts / lengths, ack groups with correct, flipped or constant nonce, raw bytes, mutated and replayed genuine frames. Non-trivial = at least one hostile frame passed Frame::read (reached the connection logic). Distinct = distinct serialised case.".into()
     }
